@@ -25,13 +25,18 @@ pub struct Body {
 pub const FAR: usize = 1 << 40;
 
 pub fn draw_small_order(rng: &mut Rng, kind: ReprKind) -> usize {
-    if kind == ReprKind::Matrix && rng.chance(1, 12) {
-        // cells beyond 2^12: the row stride itself crosses a 64-bit word
-        return *rng.pick(&[63, 64, 65, 70]);
+    if kind == ReprKind::Matrix && rng.chance(1, 10) {
+        // every residue of order^2 mod 64 and of the block count; cells beyond 2^12 (the row stride itself
+        // crosses a 64-bit word)
+        return if rng.chance(1, 3) { *rng.pick(&[63, 64, 65, 70]) } else { rng.range(13, 80) };
     }
     if kind == ReprKind::Matrix && rng.chance(1, 2) {
         // 64, 81, 121, 144 bits: word boundaries of the bit matrix
         return *rng.pick(&[8, 9, 11, 12]);
+    }
+    if kind != ReprKind::Matrix && rng.chance(1, 15) {
+        // size thresholds (fast paths for "large" digraphs) live above the usual test sizes
+        return rng.range(60, 140);
     }
     match rng.below(10) {
         0 => 1,
@@ -79,7 +84,7 @@ pub fn draw_start(rng: &mut Rng, kind: ReprKind) -> Start {
                 Start::Rand { gen: gen.into(), order: n, seed: rng.next_u64(), p_bits: f64::to_bits(p) }
             }
             5 | 6 | 7 => {
-                let p = draw_density(rng);
+                let p = if n > 40 { *rng.pick(&[0, 10, 40]) } else { draw_density(rng) };
                 let d = if kind == ReprKind::Map && rng.chance(1, 2) {
                     let vs = random_vertex_set(rng, n, 40);
                     random_dg_on(rng, &vs, p)
@@ -97,7 +102,7 @@ pub fn draw_start(rng: &mut Rng, kind: ReprKind) -> Start {
                 Start::Model { d: wd, via: via.into() }
             }
             _ => {
-                let p = draw_density(rng);
+                let p = if n > 40 { *rng.pick(&[0, 10, 40]) } else { draw_density(rng) };
                 let d = if kind == ReprKind::Map && rng.chance(1, 2) {
                     let vs = random_vertex_set(rng, n, 40);
                     random_dg_on(rng, &vs, p)
@@ -134,7 +139,7 @@ pub fn draw_start(rng: &mut Rng, kind: ReprKind) -> Start {
 
 /// Order the fixed-order representations will report for this start (an
 /// estimate used only to aim the step arguments).
-fn start_order_hint(start: &Start) -> usize {
+pub fn start_order_hint(start: &Start) -> usize {
     match start {
         Start::Empty { order } | Start::Rand { order, .. } => *order,
         Start::Gen { gen, a, b } => match gen.as_str() {
@@ -144,10 +149,10 @@ fn start_order_hint(start: &Start) -> usize {
             "utility" => 6,
             _ => *a,
         },
-        Start::Model { d, .. } => d.v.iter().max().map_or(1, |m| m + 1),
+        Start::Model { d, .. } => d.v.iter().max().map_or(1, |m| m.saturating_add(1)).min(d.v.len() + 40),
         Start::Derived { d, e, op } => {
-            let a = d.v.iter().max().map_or(1, |m| m + 1);
-            let b = e.v.iter().max().map_or(1, |m| m + 1);
+            let a = d.v.iter().max().map_or(1, |m| m.saturating_add(1)).min(d.v.len() + 40);
+            let b = e.v.iter().max().map_or(1, |m| m.saturating_add(1)).min(e.v.len() + 40);
             if op == "union" {
                 a.max(b)
             } else {
@@ -296,14 +301,38 @@ pub fn run_history(
     vs: &mut Vec<Violation>,
     label: &str,
 ) -> bool {
+    run_history_sparse(kind, g, model, steps, st, vs, label, 1)
+}
+
+/// `run_history` that compares the full observation with the model only after every `every`-th step and
+/// after the last one (long fix-up histories of C20; return values and panics are still checked per step).
+#[allow(clippy::too_many_arguments)]
+pub fn run_history_sparse(
+    kind: ReprKind,
+    g: &mut DynG,
+    model: &mut WDg,
+    steps: &[Step],
+    st: &mut Stats,
+    vs: &mut Vec<Violation>,
+    label: &str,
+    every: usize,
+) -> bool {
     let rname = kind.name();
     let mut effective = 0usize;
     for (i, s) in steps.iter().enumerate() {
         let op = format!("{rname}::{}", s.op_name());
-        let before_obs = g.observe();
-        let before = g.clone();
-        let mut next = model.clone();
-        let exp = model_apply(kind, &mut next, s);
+        // what the abstract digraph says about this step, before anything is executed
+        let (u0, v0) = s.uv();
+        let n0 = model.v.len();
+        let admissible = if kind.fixed_order() { u0 != v0 && u0 < n0 && v0 < n0 } else { u0 != v0 };
+        let must_reject = !matches!(s, Step::Remove { .. }) && !admissible;
+        // the state before the call is only needed to judge a rejected call
+        let (before_obs, before) = if must_reject { (Some(g.observe()), Some(g.clone())) } else { (None, None) };
+        let prev_vertices = model.v.len();
+        let prev_weight = model.a.get(&(u0, v0)).copied();
+        let prev_size = model.a.len();
+        let exp = model_apply(kind, model, s);
+        let changed = model.a.len() != prev_size || model.v.len() != prev_vertices || model.a.get(&(u0, v0)).copied() != prev_weight;
         let res = g.apply(s);
         match (&exp, &res) {
             (Expect::Reject, Ok(_)) => {
@@ -320,7 +349,7 @@ pub fn run_history(
                 if effective >= 3 {
                     st.bump("probe/rejected_call_after_3_successful_mutations");
                 }
-                if g.observe() != before_obs || *g != before {
+                if Some(g.observe()) != before_obs || Some(&*g) != before.as_ref() {
                     vs.push(Violation::new("rejected_call_changed_state", &op, "rejected", format!("{label}step {i} {s:?} panicked but the digraph changed: before {:?} after {:?}", before_obs, g.observe())));
                     return false;
                 }
@@ -334,14 +363,14 @@ pub fn run_history(
                     vs.push(Violation::new("wrong_return", &op, "valid", format!("{label}step {i} {s:?} returned {got:?}, the model says {want:?}")));
                     return false;
                 }
-                if next != *model {
+                if changed {
                     effective += 1;
                 }
-                if next.v.len() > model.v.len() {
+                if model.v.len() > prev_vertices {
                     st.bump("probe/map_vertex_growth");
                 }
-                if let Step::AddW { u, v, w } = *s {
-                    if model.a.get(&(u, v)).is_some_and(|&old| old != w) {
+                if let Step::AddW { w, .. } = *s {
+                    if prev_weight.is_some_and(|old| old != w) {
                         st.bump("probe/weighted_readd_replaces_weight");
                     }
                 }
@@ -350,8 +379,10 @@ pub fn run_history(
                         st.bump("probe/remove_with_id_outside_V");
                     }
                 }
-                *model = next;
             }
+        }
+        if every > 1 && (i + 1) % every != 0 && i + 1 != steps.len() {
+            continue;
         }
         // the digraph after the step must show exactly the model
         let obs = g.observe();
